@@ -69,8 +69,11 @@ def twin_pair(rng, region, length, classc, keep=False):
             both(op)
         net.ops = []
         # receive opportunities of this uplink: inserted rejected frames (twin only)
-        for _ in range(rng.below(3) if not keep else rng.range(1, 2)):
+        for _ in range(rng.below(3) if not keep else 2):
             twin.append("rx %s %d 250" % (core.hexs(rejected_frame(rng, net, kept, with_port=keep)), rng.range(0, 20) - 10))
+        if keep and len(kept) >= 8:
+            # the queue is full: a replay of a delivered application downlink (a data frame with an FPort, rejected as not fresh)
+            twin.append("rx %s 0 250" % core.hexs(kept[rng.below(len(kept))]))
         k = rng.below(4) if not keep else 0
         if k <= 1:
             cmds = b""
@@ -94,6 +97,9 @@ def twin_pair(rng, region, length, classc, keep=False):
             twin.append("rxc %s 0 250" % core.hexs(rejected_frame(rng, net, kept)))
         both("snap")
     if keep:
+        # two more replays heard after the last accepted downlink, just before the application collects its queue
+        for _ in range(2):
+            twin.append("rx %s 0 250" % core.hexs(kept[rng.below(len(kept))]))
         both("drain")
     return net.head + " | " + " | ".join(base), net.head + " | " + " | ".join(twin), pos
 
@@ -223,7 +229,7 @@ def run(rep, tier, rng):
         return
     pairs = [twin_pair(rng.fork("t%d" % i), i % 9, rng.range(4, 12), i % 2 == 0) for i in range(150 if tier == "quick" else 4000)]
     # ... and histories in which the application leaves its downlinks uncollected (the queue fills up), drained at the end
-    pairs += [twin_pair(rng.fork("k%d" % i), i % 9, rng.range(9, 13), i % 2 == 0, keep=True) for i in range(45 if tier == "quick" else 600)]
+    pairs += [twin_pair(rng.fork("k%d" % i), i % 9, rng.range(10, 14), i % 2 == 0, keep=True) for i in range(63 if tier == "quick" else 600)]
     lines = [p[0] for p in pairs] + [p[1] for p in pairs]
     core.diff_stage(rep, "X:C07:mac-histories(twins)", lines, macstage.make_judge(["acted upon", "did not join", "not an authentic"]))
     # the 2-safety property itself, on the implementation alone: the twin's outputs at the base ops equal the base run's outputs
